@@ -47,6 +47,7 @@ pub fn execute(script: &Script, keep_trace: bool) -> Outcome {
             5 => deque_run::run_deque::<5>(script, keep_trace),
             6 => deque_run::run_deque::<6>(script, keep_trace),
             8 => deque_run::run_deque::<8>(script, keep_trace),
+            11 => deque_run::run_deque::<11>(script, keep_trace),
             n => harness_fail(format!("capacity {n} is not compiled for the deque scenario")),
         },
         Scenario::Io => io_scn::run(script, keep_trace),
